@@ -121,6 +121,7 @@ type Config struct {
 	// (then no own command can overtake an earlier foreign update; the strict oracles apply).
 	Disciplined bool
 	Bulk        bool // IDLE with a bulk time: responses are buffered and sent merged when the IDLE ends
+	Script      []Op // when set: run exactly these ops (corpus of scripted scenarios) instead of generating
 }
 
 // Generate-and-run: the next op depends on what the sessions have been told so far.
@@ -361,6 +362,25 @@ func RunHistory(rng *common.Rng, cfg Config) (*Run, error) {
 		return setOf(f)
 	}
 
+	if len(cfg.Script) > 0 {
+		for _, o := range cfg.Script {
+			if o.Kind == "deliver" && verifhook.Held(w.StateID[o.S]) == 0 {
+				continue
+			}
+			if o.Kind == "drain" {
+				for verifhook.Held(w.StateID[o.S]) > 0 {
+					if _, err := exec(Op{Kind: "deliver", S: o.S}); err != nil {
+						return run, err
+					}
+				}
+				continue
+			}
+			if _, err := exec(o); err != nil {
+				return run, err
+			}
+		}
+		return run, nil
+	}
 	for step := 0; step < cfg.Steps; step++ {
 		s := rng.Pick(cfg.K)
 		m := mir[s]
